@@ -144,6 +144,66 @@ def _derived_from_param(expr, params, derived):
     return False
 
 
+def _base_name(expr):
+    b = expr
+    while isinstance(b, (ast.Attribute, ast.Subscript)):
+        b = b.value
+    return b.id if isinstance(b, ast.Name) else None
+
+
+def _stores_of(own, name):
+    return [n for n in own if isinstance(n, ast.Name) and n.id == name and isinstance(n.ctx, (ast.Store, ast.Del))]
+
+
+def _isinstance_types(test, name):
+    """`isinstance(name, T)` / `isinstance(name, (T1, T2))` -> set of type texts, else None"""
+    if isinstance(test, ast.Call) and isinstance(test.func, ast.Name) and test.func.id == "isinstance" and len(test.args) == 2 \
+            and isinstance(test.args[0], ast.Name) and test.args[0].id == name:
+        t = test.args[1]
+        return {ast.unparse(e) for e in t.elts} if isinstance(t, ast.Tuple) else {ast.unparse(t)}
+    return None
+
+
+def _rebinding_excluded_at(f, own, param, call, skip=None):
+    """-> (ok, text).  See the `structural-guarded` site kind.  `skip`: the aliasing first binding of a local that stands for a parameter"""
+    par = _parents(f.node)
+    stores = [s_ for s_ in _stores_of(own, param) if skip is None or s_ is not skip.targets[0]]
+    if not stores:
+        return True, "never re-bound"
+    # G = isinstance(param, T), bound exactly once, before any re-binding of param
+    flags = {}
+    for n in own:
+        if isinstance(n, (ast.Assign, ast.AnnAssign)):
+            tgt = n.targets[0] if isinstance(n, ast.Assign) and len(n.targets) == 1 else getattr(n, "target", None)
+            if isinstance(tgt, ast.Name) and n.value is not None:
+                ts = _isinstance_types(n.value, param)
+                if ts is not None and len(_stores_of(own, tgt.id)) == 1 and all(n.lineno < s_.lineno for s_ in stores):
+                    flags[tgt.id] = ts
+    if not flags:
+        return False, "`%s` is re-bound (line %s) and no flag `G = isinstance(%s, ...)` is bound once before that" % (param, [s_.lineno for s_ in stores], param)
+    covered = None
+    for s_ in stores:
+        up, ok_here = par.get(id(s_)), None
+        while up is not None and up is not f.node:
+            if isinstance(up, ast.If) and isinstance(up.test, ast.UnaryOp) and isinstance(up.test.op, ast.Not) and isinstance(up.test.operand, ast.Name) \
+                    and up.test.operand.id in flags and any(s_ in list(ast.walk(b)) for b in up.body):
+                ok_here = flags[up.test.operand.id]
+                break
+            up = par.get(id(up))
+        if ok_here is None:
+            return False, "the re-binding of `%s` at line %d is not under `if not <isinstance flag>:`" % (param, s_.lineno)
+        covered = ok_here if covered is None else (covered & ok_here)
+    # the call's branch: an enclosing if / elif whose test is isinstance(param, U), U within every flag's T, with the call in its body
+    up = par.get(id(call))
+    while up is not None and up is not f.node:
+        if isinstance(up, ast.If) and any(call in list(ast.walk(b)) for b in up.body):
+            us = _isinstance_types(up.test, param)
+            if us is not None and us <= covered:
+                return True, "re-bound only under `not isinstance(%s, %s)`, called under isinstance(%s, %s)" % (param, sorted(covered), param, sorted(us))
+        up = par.get(id(up))
+    return False, "the call is not under `isinstance(%s, U)` with U among %s" % (param, sorted(covered or ()))
+
+
 def _map_partial_site(m, par, f, callee):
     """
     `map(partial(F, **kw), P or <empty>)` where F is the recursive callee, P is an (unre-bound so far) parameter of the
@@ -242,9 +302,33 @@ def recursion_obligations(graph, measures):
                     obs.append((name, None, "recursive call site %s (line %d) is not covered by the declared measure" % (site, c.lineno)))
                 elif how == "structural":
                     args = list(c.args) + [k.value for k in c.keywords]
-                    ok = bool(args) and any(_derived_from_param(x, params, derived) for x in args)
-                    obs.append((name, ok, "argument is a proper sub-structure of a parameter (measure: %s)" % decl["measure"] if ok
-                                else "call at line %d no longer passes a proper sub-structure of a parameter: %s" % (c.lineno, ast.unparse(c)[:120])))
+                    good = [x for x in args if _derived_from_param(x, params, derived)]
+                    # the parameter the argument descends from still holds the caller's argument: it is never re-bound
+                    rebound = sorted({_base_name(x) for x in good if _base_name(x) in params and _stores_of(own, _base_name(x))})
+                    good = [x for x in good if _base_name(x) not in rebound]
+                    ok = bool(good)
+                    obs.append((name, ok, "argument is a proper sub-structure of a parameter that is never re-bound (measure: %s)" % decl["measure"] if ok
+                                else ("call at line %d passes a sub-structure of %s, which is re-bound in the function: %s" % (c.lineno, rebound, ast.unparse(c)[:120]) if rebound
+                                      else "call at line %d no longer passes a proper sub-structure of a parameter: %s" % (c.lineno, ast.unparse(c)[:120]))))
+                elif how == "structural-guarded":
+                    # the parameter IS re-bound somewhere, but only under `if not G:` with G = isinstance(param, (T...)) bound once, while
+                    # the call sits under `isinstance(param, (U...))` with U a subset of T: at the call the parameter is the argument
+                    args = list(c.args) + [k.value for k in c.keywords]
+                    # a local whose FIRST binding aliases a parameter (node = args[0] if args else kwargs.get(...)) stands for it
+                    alias_first = {}
+                    for n in sorted((n for n in own if isinstance(n, ast.Assign) and len(n.targets) == 1 and isinstance(n.targets[0], ast.Name)), key=lambda n: n.lineno):
+                        if n.targets[0].id not in alias_first:
+                            alias_first[n.targets[0].id] = n if is_alias_expr(n.value) else None
+                    params_g = params | {k_ for k_, v_ in alias_first.items() if v_ is not None and all(s_.lineno >= v_.lineno for s_ in _stores_of(own, k_))}
+                    good = [x for x in args if _derived_from_param(x, params_g, derived) and _base_name(x) in params_g]
+                    ok, why = False, "no argument is a sub-structure of a parameter"
+                    for x in good:
+                        ok, why = _rebinding_excluded_at(f, own, _base_name(x), c, skip=alias_first.get(_base_name(x)))
+                        if ok:
+                            break
+                    # (a guard shape that is no longer recognised is not evidence of non-termination: undecided, not refuted)
+                    obs.append((name, True if ok else None, ("argument is a proper sub-structure of the parameter; its only re-binding is under a guard that excludes this call's branch (%s; measure: %s)" % (why, decl["measure"])) if ok
+                                else "call at line %d: %s" % (c.lineno, why)))
                 else:
                     assumed.append("recursion %s: measure '%s' NOT discharged (%s) — backed only by the bounded watchdog" % (site, decl["measure"], how))
             # references that are not direct calls (map(f, ...), partial(f)) keep the component recursive too
